@@ -156,5 +156,11 @@ func Gen(p *hx.Prng, thorough bool, history bool) (Scenario, []int) {
 		}
 		sched = append(sched, cur)
 	}
-	return Scenario{Slot: slot, Init: init, Writers: ws}, sched
+	sc := Scenario{Slot: slot, Init: init, Writers: ws}
+	// a third of the stores keep values in a separate segment, half of those also in the global cache
+	if p.Chance(1, 3) {
+		sc.SepVals = true
+		sc.ValCache = p.Chance(1, 2)
+	}
+	return sc, sched
 }
